@@ -439,11 +439,12 @@ func (r *c12Run) verifyStores(what string) {
 			r.res.Violate("C12/confirm-bridger-mismatch/"+kind, "%s: %s confirm of oracle %s names bridger %s, registered is %s", what, kind, oracleAddr, bridger, rec.BridgerAddress)
 		}
 		sig, err := hex.DecodeString(sigHex)
-		if err != nil || len(sig) < 65 {
-			r.res.Violate("C12/stored-signature-malformed/"+kind, "%s: stored %s confirm has an undecodable signature", what, kind)
+		// the external contract takes exactly (v, r, s): 65 bytes, nothing appended
+		if err != nil || len(sig) != 65 {
+			r.res.Violate("C12/stored-signature-malformed/"+kind, "%s: stored %s confirm for %s carries a signature of %d bytes (hex error: %v); the bridge contract verifies exactly 65 bytes r||s||v", what, kind, obj, len(sig), err)
 			return
 		}
-		sig = append([]byte{}, sig[:65]...)
+		sig = append([]byte{}, sig...)
 		if sig[64] == 27 || sig[64] == 28 {
 			sig[64] -= 27
 		}
@@ -677,7 +678,7 @@ func c12PartA(spec c12Spec, res *core.CaseResult, verbose bool) {
 	}
 
 	// --- hostile first: nothing may be stored
-	for _, how := range []string{"bitflip", "truncate", "short", "wrong-v", "v29", "zero"} {
+	for _, how := range []string{"bitflip", "truncate", "short", "wrong-v", "v29", "zero", "extend"} {
 		r.submit("set/"+how, mkSet(o0, 1, mutSig(sigSet(o0), how)), true)
 		r.submit("batch/"+how, mkBatch(o0, batch1.BatchNonce, mutSig(sigBatch(o0, batch1), how)), true)
 		r.submit("call/"+how, mkCall(o0, 1, mutSig(sigCall(o0, call1), how)), true)
